@@ -15,7 +15,7 @@ RULE = (
     "file names include an NFC/NFD pair that are two distinct files, and every path occurrence gets a random "
     "spelling (relative, './x', 'd/../x', 'a//b', absolute, absolute with '.', '..', '//' segments, pathlib.Path) and "
     "container shape; each case is built in 3 definition orders. Observed: Graph.from_targets "
-    "dependencies/dependents/provides/unresolved/endpoints (lib lane) and `gwf info` JSON through the real CLI (cli "
+    "dependencies/dependents/provides/unresolved/endpoints (lib lane) and `gwf info` JSON and `gwf info --format pretty` (Dependents blocks) through the real CLI (cli "
     "lane). Oracle: own string resolver + set intersection. Non-trivial: at least one edge realised through two "
     "different spellings of one file AND two distinct files with a common basename present. distinct = (edge count, "
     "sorted spelling-class pairs on edges)."
@@ -25,7 +25,7 @@ ASSUMPTIONS = ["no trailing-slash spellings, no symlinks, no '//' at the very st
 WDS = ["", "sub", "sub/deep", "other"]
 
 
-QUICK_BUDGET = {"cases": 8000, "deadline_s": 170, "case_timeout_s": 60, "floors": {"lib_graphs": 7558, "cli_info": 280, "edges_checked": 40000}}
+QUICK_BUDGET = {"cases": 8000, "deadline_s": 170, "case_timeout_s": 60, "floors": {"lib_graphs": 7558, "cli_info": 280, "cli_info_pretty": 280, "edges_checked": 40000}}
 THOROUGH_FACTOR = 20  # thorough = the same workload with 20x the cases (floors scale along)
 
 
@@ -300,3 +300,24 @@ def run_cli(case, proj, variant, deps, inv, res):
             res.violation("info-not-json", "gwf info NAME did not print JSON", out=r2.out[:500])
     else:
         res.violation(mech_for(case), "gwf info NAME failed", **cli.crash_witness(r2))
+    # the human-readable format prints the dependents of every target: same relation
+    r3 = cli.gwf(proj.root, ["info", "--format", "pretty"], env)
+    res.mon("cli_info_pretty")
+    if r3.rc != 0:
+        res.violation("info-pretty-fails" if mech_for(case) == "graph-mismatch" else mech_for(case), "gwf info --format pretty failed on a valid workflow", **cli.crash_witness(r3), workflow=gen.render_workflow(tl))
+        return
+    blocks, cur, field = {}, None, None
+    for ln in r3.out.splitlines():
+        if ln in ("Name:", "Inputs:", "Outputs:", "Dependents:", "Spec:"):
+            field = ln[:-1]
+            continue
+        if ln.startswith("    ") and field:
+            v = ln[4:]
+            if field == "Name":
+                cur = v
+                blocks[cur] = []
+            elif field == "Dependents" and cur is not None and v != "-":
+                blocks[cur].append(v)
+    gp = {k: set(v) for k, v in blocks.items()}
+    if gp != inv:
+        res.violation(mech_for(case), "gwf info --format pretty: dependents %s; oracle %s" % (fmt(gp), fmt(inv)), out=r3.out[:800])
